@@ -358,8 +358,10 @@ func zzvAddrBytes(s zzvShape, rng *mrand.Rand) []byte {
 			alpha = "a\xc3\xa9\xe2\x82\xac."
 		case "space":
 			alpha = "a b\t\r\n"
-		case "bracket":
-			alpha = "a[]%/@"
+		case "punct":
+			alpha = "a%/@_~"
+		case "bracketed", "unbalanced":
+			alpha = "abcdefghijklmnopqrstuvwxyz0123456789"
 		case "ip4text":
 			return append([]byte{byte(s.Alen)}, "10.22.33.44"[:s.Alen]...)
 		case "ip6text":
@@ -367,6 +369,12 @@ func zzvAddrBytes(s zzvShape, rng *mrand.Rand) []byte {
 		}
 		for i := range d {
 			d[i] = alpha[rng.Intn(len(alpha))]
+		}
+		switch s.Acls {
+		case "bracketed":
+			d[0], d[len(d)-1] = '[', ']'
+		case "unbalanced":
+			d[len(d)/2] = ']'
 		}
 		return append([]byte{byte(s.Alen)}, d...)
 	}
@@ -588,7 +596,10 @@ func TestZZVReqFuzz(t *testing.T) {
 			case 4:
 				s.Alen, s.Acls = 16, []string{"rand", "zero", "loop", "mapped"}[rng.Intn(4)]
 			case 3:
-				s.Alen, s.Acls = rng.Intn(256), []string{"alnum", "colon", "nul", "utf8", "space", "bracket"}[rng.Intn(6)]
+				s.Alen, s.Acls = rng.Intn(256), []string{"alnum", "colon", "nul", "utf8", "space", "punct", "bracketed", "unbalanced"}[rng.Intn(8)]
+				if s.Alen < 3 && s.Acls == "bracketed" {
+					s.Acls = "alnum"
+				}
 			default:
 				s.Alen, s.Acls = rng.Intn(12), "junk"
 			}
